@@ -1,0 +1,25 @@
+//go:build verif
+
+package pebbledb
+
+import "github.com/cockroachdb/pebble"
+
+// VerifOptionsHook, when set, may adjust the Pebble options (FS, Logger, sizes)
+// before the database is opened. Only compiled with the "verif" build tag.
+var VerifOptionsHook func(*pebble.Options)
+
+// VerifYieldHook, when set, is called at scan points between an index hit and
+// the fetch of the signature record.
+var VerifYieldHook func(point string)
+
+func verifPebbleOptions(o *pebble.Options) {
+	if h := VerifOptionsHook; h != nil {
+		h(o)
+	}
+}
+
+func verifYield(point string) {
+	if h := VerifYieldHook; h != nil {
+		h(point)
+	}
+}
